@@ -216,6 +216,34 @@ def one_case(ctx, rng, idx):
         else:
             detail = {'len_full': len(pf or b''), 'len_alone': len(pa or b'')}
         rep.fail('incomplete-capture:%s' % kind, case, detail)
+    # the same Flow object processed a second time (a checkpoint: after its directory was removed, so that it saves again):
+    # the observer is as transparent and captures as completely as the first time
+    # (a join step owns a key-value file that it closes when its run ends: it is good for one run, like a zip dumper)
+    if kind in ('checkpoint', 'dump_to_path', 'dump_to_path_json') and idx % 2 == 0 and not any(l.startswith('join') for l, _ in pre + suf):
+        re_cap = Capture(kind, ctx.scratch, 'r%d' % idx)
+        def fresh_source(package):
+            # every run starts from the same data: steps may edit rows and descriptors in place
+            from datapackage import Package
+            yield Package(copy.deepcopy(desc))
+            for rws in rows:
+                yield iter(copy.deepcopy(rws))
+        flow = Flow(fresh_source, *([f() for _, f in pre] + re_cap.steps() + [f() for _, f in suf]))
+        second = None
+        try:
+            with quiet():
+                flow.results(on_error=None)
+                if kind == 'checkpoint':
+                    import shutil
+                    shutil.rmtree(os.path.join(re_cap.dir, 'cp'), ignore_errors=True)
+                res2, dp2, _ = flow.results(on_error=None)
+            second = {'ok': canon.enc_pkg(dp2.descriptor, res2)}
+        except Exception as e:  # noqa
+            rep.fail('same-flow-object-second-run-fails:%s' % kind, case, repr(e)[:300])
+        if second is not None:
+            if proj(second) != proj(without):
+                rep.fail('not-transparent-on-second-run:%s' % kind, case, {'second': proj(second), 'without': proj(without)})
+            elif re_cap.persisted() != pa:
+                rep.fail('incomplete-capture-on-second-run:%s' % kind, case, {})
     total_rows_at_position = sum(len(r['rows']) for r in alone['ok'])
     # what a file dumper persisted can be read back, resource by resource, with as many rows as passed its position
     if kind in ('dump_to_path', 'dump_to_path_json', 'dump_to_zip') and isinstance(pf, dict) and 'datapackage.json' in pf:
